@@ -49,12 +49,21 @@ def gen_plan(ch: Chooser, tier: str) -> dict[str, Any]:
         t0 = plan['faults_stop'] + 2.0
         dt_kill = ch.choice([0.3, 0.6, 1.2])
         down = ch.choice([1.0, 4.0])
-        plan['actions'] += [
-            {'t': t0, 'do': 'patch', 'name': name, 'patch': {'spec': {'tt': 1}}, 'essential': True},
-            {'t': round(t0 + dt_kill, 6), 'do': 'kill', 'op': 'op1', 'inflight_lands': True},
-            {'t': round(t0 + dt_kill + down / 2, 6), 'do': 'patch', 'name': name, 'patch': {'spec': {'tt': None}}, 'essential': True},
-            {'t': round(t0 + dt_kill + down, 6), 'do': 'start', 'op': 'op1'},
-        ]
+        if ch.bool(0.35):
+            # ... or simply reverted under the running operator, while a handler of the cycle waits for its retry
+            plan['actions'] += [
+                {'t': t0, 'do': 'patch', 'name': name, 'patch': {'spec': {'tt': 1}}, 'essential': True},
+                {'t': round(t0 + ch.choice([0.5, 1.0, 2.0]), 6), 'do': 'patch', 'name': name, 'patch': {'spec': {'tt': None}},
+                 'essential': True},
+            ]
+            dt_kill, down = 2.0, 0.0
+        else:
+            plan['actions'] += [
+                {'t': t0, 'do': 'patch', 'name': name, 'patch': {'spec': {'tt': 1}}, 'essential': True},
+                {'t': round(t0 + dt_kill, 6), 'do': 'kill', 'op': 'op1', 'inflight_lands': True},
+                {'t': round(t0 + dt_kill + down / 2, 6), 'do': 'patch', 'name': name, 'patch': {'spec': {'tt': None}}, 'essential': True},
+                {'t': round(t0 + dt_kill + down, 6), 'do': 'start', 'op': 'op1'},
+            ]
         plan['actions'].sort(key=lambda a: a['t'])
         plan['faults_stop'] = round(t0 + dt_kill + down, 6)
         plan['until'] = plan['faults_stop'] + 120.0
